@@ -603,6 +603,7 @@ def run(ctx):
     ctx.ob("C01.h", MEM, "_memory_generate_verilog", "read enable wraps the read", ok, "" if ok else "re guard missing", mg)
     ck = [st for st in ast.walk(mg) if isinstance(st, ast.AugAssign) and "always @(posedge {_get_name(port.clock)})" in norm(st)]
     ctx.ob("C01.h", MEM, "_memory_generate_verilog", "each port clocked by its own clock", len(ck) == 1, "port clock changed", mg)
+    _memory_port_setup(ctx, mg)
 
     # ================================================================ C01.i
     fmt = None
@@ -888,6 +889,45 @@ def _slice_lowering(ctx, vm):
     idt = [n for n in vs.body if isinstance(n, ast.If) and any(isinstance(x, ast.Return) for x in n.body)]
     ok = bool(idt) and norm(idt[0].test) in ("start == 0 and len(node) == length", "len(node) == length and start == 0")
     ctx.ob("C01.m", VER, "visit_Slice", "slice dropped only when it covers the whole node", ok, "" if ok else f"{[norm(i.test) for i in idt]}", vs)
+
+
+def _memory_port_setup(ctx, mg):
+    """The statements of _memory_generate_verilog that rewrite port attributes before anything is printed, interpreted
+    (lxs/pyconst.py) on memories of 1..3 ports with every combination of declared modes and same / different clocks: the
+    simulator uses the declared mode, so the printed template may only be switched to another mode where the pinned design says so
+    (ports on different clocks); a granularity of 0 stands for the full width, a declared one is kept."""
+    import itertools
+    from .. import pyconst
+    from ..pyconst import NS, Interp, UNKNOWN
+
+    def stores_port(st):
+        return any(isinstance(x, ast.Attribute) and isinstance(x.ctx, ast.Store) and x.attr in ("mode", "we_granularity") for x in ast.walk(st))
+    idx = max((i for i, st in enumerate(mg.body) if stores_port(st)), default=-1)
+    prefix = mg.body[:idx + 1]
+    bad_mode = bad_gran = None
+    n_ev = 0
+    for clocks in (["a"], ["a", "a"], ["a", "b"], ["a", "a", "b"], ["a", "b", "a"], ["b", "a", "a"], ["a", "b", "c"], ["a", "a", "a"]):
+        for modes in itertools.product(("WRITE_FIRST", "READ_FIRST", "NO_CHANGE"), repeat=len(clocks)):
+            grans = (0, 8, 0)[:len(clocks)]
+            ports = [NS(clock=c, mode=m_, we_granularity=g, we=1, re=None, async_read=False, adr=0, dat_r=0, dat_w=0)
+                     for c, m_, g in zip(clocks, modes, grans)]
+            it = Interp({"memory": NS(ports=ports, width=32, depth=16, init=None), "name": "mem",
+                         "READ_FIRST": "READ_FIRST", "WRITE_FIRST": "WRITE_FIRST", "NO_CHANGE": "NO_CHANGE"})
+            try:
+                it.run(prefix)
+            except Exception as ex:     # interpreter limit
+                ctx.need(False, f"_memory_generate_verilog: port set-up cannot be interpreted ({ex})")
+            n_ev += 1
+            after = [(p_.get("mode", UNKNOWN), p_.get("we_granularity", UNKNOWN)) for p_ in ports]
+            if len(set(clocks)) == 1 and [a[0] for a in after] != list(modes) and bad_mode is None:
+                bad_mode = f"{len(clocks)} port(s) on ONE clock declared {list(modes)} are printed as {[str(a[0]) for a in after]}: the emitted memory " \
+                           f"answers a read/write collision differently from the simulated one"
+            if any(a[1] is UNKNOWN or a[1] != (g or 32) for a, g in zip(after, grans)) and bad_gran is None:
+                bad_gran = f"granularities {list(grans)} (width 32) become {[str(a[1]) for a in after]}"
+    ctx.analysed["paths"] += n_ev
+    ctx.ob("C01.h", MEM, "_memory_generate_verilog", "ports that share one clock are printed in their declared mode", bad_mode is None, bad_mode or "", mg)
+    ctx.ob("C01.h", MEM, "_memory_generate_verilog", "write granularity: 0 stands for the full width, a declared one is kept", bad_gran is None,
+           bad_gran or "", mg)
 
 
 def _memory_init(ctx, mm):
